@@ -2,7 +2,7 @@
 (* C13: runs of real askers against a real actor whose effect is harness code.  F(msg) = 10 * msg + 1.
    Events (one global sequence):
      reset
-     ask    req, msg, mode ("once" | "timeout" | "channel"), class ("immediate" | "prompt" | "never" | "late" | "boundary": the reply is produced within microseconds of the deadline)
+     ask    req, msg, mode ("once" | "timeout" | "channel"), class ("immediate" | "prompt" | "never" | "late" | "verylate": a late reply produced 15 timeouts after the asker gave up | "boundary": the reply is produced within microseconds of the deadline)
      res    req, val, err ("nil" | "timeout" | "lost")           the asker's call returned / its channel delivered
      reply  req, outcome ("ok" | "panic")                        the actor's Reply returned / panicked
      probe  ok                                                   after the run a fresh request was still answered (and every ask call has returned by then)
@@ -26,7 +26,7 @@ Next ==
        [] e.ev = "res"   -> LET q == asked[e.req] IN
             IF e.err = "nil" /\ e.val # F(q.msg) THEN Bad("answer of another request (or a wrong value)")
             ELSE IF q.class \in {"immediate", "prompt"} /\ e.err # "nil" THEN Bad("the actor answered in time but the asker got " \o e.err)
-            ELSE IF q.class \in {"never", "late"} /\ ~(e.err = "timeout" /\ e.val = 0) THEN Bad("expected (zero, ErrActorAskTimeout)")
+            ELSE IF q.class \in {"never", "late", "verylate"} /\ ~(e.err = "timeout" /\ e.val = 0) THEN Bad("expected (zero, ErrActorAskTimeout)")
             ELSE IF q.class = "boundary" /\ ~(e.err = "nil" \/ (e.err = "timeout" /\ e.val = 0)) THEN Bad("a reply at the deadline: neither the reply nor (zero, ErrActorAskTimeout) but " \o e.err)
             ELSE UNCHANGED <<asked, nbad>>
        [] e.ev = "reply" -> IF e.outcome # "ok" THEN Bad("Reply panicked: " \o asked[e.req].class) ELSE UNCHANGED <<asked, nbad>>
